@@ -59,7 +59,7 @@ class LtlAstParserVisitor(LtlParserVisitor):
         # Identifier is a constant
         if id in self.const_val_dict:
             val = self.const_val_dict[id]
-            node = Constant(float(val))
+            node = Constant(self.literal_to_float(val))
             self.phi_name_to_node_dict[node.name] = node
         # Identifier is either an input variable or a sub-formula
         elif id in self.var_subspec_dict:
@@ -217,8 +217,15 @@ class LtlAstParserVisitor(LtlParserVisitor):
         self.phi_name_to_node_dict[node.name] = node
         return node
 
+    def literal_to_float(self, text):
+        try:
+            return float(text)
+        except ValueError:
+            # hexadecimal and binary integer literals of the grammar
+            return float(int(text, 0))
+
     def visitExprLiteral(self, ctx):
-        val = float(ctx.literal().getText())
+        val = self.literal_to_float(ctx.literal().getText())
         node = Constant(val)
         self.phi_name_to_node_dict[node.name] = node
         return node
